@@ -736,6 +736,7 @@ def gen_bit_type(b, T, rng, max_hb):
     raise EvalError("bit type")
 
 
+CLI_FLAGS = ["-v", "-v", "-verbose", "-sep", "-separate", "-ver=t1", "-version=t2"]
 CODEC_SETS = [dict(json=j, text=t, sql=s) for j in (False, True) for t in (False, True) for s in (False, True)]
 
 
@@ -847,8 +848,21 @@ def _gen_enum_pkg(rng, name, profile, max_hb, allow_gorm):
             fl["gorm"] = False
         return fl
 
+    # common CLI flags that must not change what is generated: -v/-verbose (debug output), -sep/-separate
+    # (one file per type), -ver/-version (header text).  -r/-raw is a debugging aid that writes the
+    # unformatted template output without imports and is not part of the sweep.
+    cli = []
+    if rng.random() < 0.45:
+        cli = [rng.choice(CLI_FLAGS)]
+        if rng.random() < 0.3:
+            c2 = rng.choice(CLI_FLAGS)
+            if c2.split("=")[0].lstrip("-")[:3] != cli[0].split("=")[0].lstrip("-")[:3]:
+                cli.append(c2)
+    for c in cli:
+        spec.features.add("cli" + c.split("=")[0])
+
     def args_of(fl):
-        return ["-" + f for f in ("bit", "json", "text", "sql", "gorm") if fl.get(f)]
+        return ["-" + f for f in ("bit", "json", "text", "sql", "gorm") if fl.get(f)] + cli
     # types that shoot generates in this plan although they are no targets (the untargeted type of a
     # joint / -type=* / -file run): their output exists and carries its own stale guard
     spec.extra_generated = []
